@@ -17,7 +17,7 @@ EXPLANATION = (
     'every shape combination is a path; one condition per format version (quick 1,4,5,7; thorough 1..7) x secrets shape; only '
     '"Confirmed over all paths" counts. Region part: regions_to_bits_rep and regions_bits_rep_to_regions are translated from '
     'their AST to z3 terms over (_ BitVec 64) (loops unrolled over N=63 region names with a symbolic injective index map into '
-    '1..63 and a symbolic selection) and z3 decides, without bound on the subset, that the decoded set equals the selected set, '
+    '1..63 and a symbolic selection) and z3 decides, one query per region and without bound on the subset, that a region is decoded iff selected, '
     'that the asserts hold, that no shift leaves the 64-bit model (so BitVec = Python int here) and that the value fits a signed '
     'BIGINT; a second obligation uses an arbitrary symbolic sequence of picks (duplicates, any order). The translator is '
     'validated each run on solver-chosen models against the real functions.'
@@ -49,112 +49,61 @@ def _real_roundtrip(names, idxs, selected):
 
 
 def _regions(R, n, picks):
+    import concurrent.futures as cf
+    import multiprocessing as mp
     RG = importlib.import_module('harness.C15_regions')
-    enc_node, enc_text = RG.load('regions_to_bits_rep')
-    dec_node, dec_text = RG.load('regions_bits_rep_to_regions')
-    R.encode(f'{RG.SRC}:{enc_node.lineno} regions_to_bits_rep', enc_text)
-    R.encode(f'{RG.SRC}:{dec_node.lineno} regions_bits_rep_to_regions', dec_text)
-    names = [f'r{j}' for j in range(n)]
-    idxs = [z3.BitVec(f'idx{j}', 64) for j in range(n)]
-    pre = [z3.And(i >= 1, i <= 63) for i in idxs] + [z3.Distinct(*idxs)]
-    mapping = RG.SymMapping(names, idxs)
-
-    def obligations(label, selected, want):
-        """selected: SymList for the encoder; want[j]: z3 Bool 'region j was selected'."""
-        it = RG.Interp()
-        bits = RG.call(it, enc_node, [selected, mapping])
-        if not z3.is_bv(bits):
-            raise HarnessError('regions_to_bits_rep did not translate to a bit-vector')
-        back = RG.call(it, dec_node, [bits, mapping])
-        if not isinstance(back, RG.SymList):
-            raise HarnessError('regions_bits_rep_to_regions did not translate to a list')
-        got = {nm: z3.BoolVal(False) for nm in names}
-        count = {nm: 0 for nm in names}
-        for g, el in back.items:
-            if not isinstance(el, str):
-                raise HarnessError('decoder appends something that is not a region name')
-            got[el] = z3.Or(got[el], g)
-            count[el] += 1
-        if any(c > 1 for c in count.values()):
-            raise HarnessError('decoder may append a region twice')
-        goals = {
-            'decoded set == selected set': z3.And(*[got[nm] == want[j] for j, nm in enumerate(names)]),
-            'asserts of the code hold': z3.And(*[z3.Implies(g, c) for g, c, _ in it.asserts]) if it.asserts else z3.BoolVal(True),
-            'no negative shift count (Python would raise)': z3.And(*[z3.Implies(g, z3.Not(c)) for g, c, _ in it.raises]),
-            'BitVec-64 model is exact (shifts stay in range)': z3.And(*[z3.Implies(g, c) for g, c, _ in it.no_wrap]),
-            'stored value fits signed BIGINT': z3.And(bits >= 0),
-        }
-        for gname, goal in goals.items():
-            s = z3.Solver()
-            s.set('timeout', 600000)
-            s.add(*pre)
-            t = time.time()
-            r = str(s.check(z3.Not(goal)))
-            dt = time.time() - t
-            tw = z3.Solver()
-            tw.add(*pre)
-            tw.add(z3.Or(*want))
-            twin = str(tw.check())
-            name = f'regions {label}: {gname}'
+    for fn in ('regions_to_bits_rep', 'regions_bits_rep_to_regions'):
+        node, text = RG.load(fn)
+        R.encode(f'{RG.SRC}:{node.lineno} {fn}', text)
+    timeout_ms = 120000 if R.tier == 'quick' else 600000
+    for pk, label in ((None, f'N={n}, any subset'), (picks, f'N={n}, sequence of {picks} picks')):
+        P = RG.Problem(n, pk)
+        tw = z3.Solver()
+        tw.add(*P.pre)
+        tw.add(z3.Or(*P.want))
+        twin = str(tw.check())
+        keys = list(P.goals)
+        chunks = [keys[i::8] for i in range(8)]
+        results = []
+        with cf.ProcessPoolExecutor(max_workers=8, mp_context=mp.get_context('fork')) as ex:
+            for part in ex.map(RG.solve_goals, [(n, pk, c, timeout_ms) for c in chunks if c]):
+                results.extend(part)
+        for key, r, dt, cex in sorted(results, key=lambda x: keys.index(x[0])):
+            name = f'regions {label}: {key}'
             if r == 'unsat':
                 R.ob(name, 'discharged' if twin == 'sat' else 'not_discharged', dt, {'twin': twin}, nontrivial=twin == 'sat')
             elif r == 'sat':
-                m = s.model()
-                ci = [m.eval(i, model_completion=True).as_signed_long() for i in idxs]
-                sel = concretise(m)
-                ok, detail = _real_roundtrip(names, ci, sel)
+                ci, sel = cex
+                ok, detail = _real_roundtrip(P.names, ci, sel)
                 if ok:
-                    raise HarnessError(f'z3 counterexample for "{gname}" does not reproduce on the real functions: idx={ci} sel={sel}')
-                st = R.finding(CLS_REG, f'regions_to_bits_rep/regions_bits_rep_to_regions idx={dict(zip(names, ci))} selected={sel}: {detail}',
-                               {'kind': 'regions', 'names': names, 'idxs': ci, 'selected': sel})
+                    raise HarnessError(f'z3 counterexample for "{key}" does not reproduce on the real functions: idx={ci} sel={sel}')
+                st = R.finding(CLS_REG, f'regions_to_bits_rep/regions_bits_rep_to_regions idx={dict(zip(P.names, ci))} '
+                               f'selected={sel}: {detail}', {'kind': 'regions', 'names': P.names, 'idxs': ci, 'selected': sel})
                 R.ob(name, st, dt, {'idx': ci, 'selected': sel}, nontrivial=True)
             else:
                 R.ob(name, 'not_discharged', dt, {'z3': r})
-        return bits, got
-
-    # (a) the selection is a sub-list of the names in mapping order, chosen by N symbolic bits
-    sel_bits = [z3.Bool(f'sel{j}') for j in range(n)]
-    selected = RG.SymList([(sel_bits[j], names[j]) for j in range(n)])
-
-    def conc_a(m):
-        return [names[j] for j in range(n) if z3.is_true(m.eval(sel_bits[j], model_completion=True))]
-
-    concretise = conc_a
-    bits_a, got_a = obligations(f'N={n}, any subset', selected, sel_bits)
-
-    # translator validation: models of phi and not-phi pushed through the real functions
-    pts = 0
-    for extra in ([sel_bits[0], z3.Not(sel_bits[1])], [z3.Not(sel_bits[0]), sel_bits[n - 1], idxs[n - 1] == 63],
-                  [z3.And(*sel_bits)], [z3.Not(z3.Or(*sel_bits))], [idxs[0] == 63, sel_bits[0]], [idxs[0] == 1, sel_bits[0], sel_bits[2]]):
-        s = z3.Solver()
-        s.add(*pre)
-        s.add(*extra)
-        if str(s.check()) != 'sat':
-            raise HarnessError('translator validation: no model')
-        m = s.model()
-        ci = [m.eval(i, model_completion=True).as_signed_long() for i in idxs]
-        sel = conc_a(m)
-        U = _utils()
-        real_bits = U.regions_to_bits_rep(sel, dict(zip(names, ci)))
-        real_back = U.regions_bits_rep_to_regions(real_bits, dict(zip(names, ci)))
-        model_bits = m.eval(bits_a, model_completion=True).as_long()
-        model_back = [nm for nm in names if z3.is_true(m.eval(got_a[nm], model_completion=True))]
-        if real_bits != model_bits or real_back != model_back:
-            raise HarnessError(f'translator validation failed: real bits={real_bits} back={real_back}; model bits={model_bits} back={model_back}')
-        pts += 1
-    R.validation_points += pts
-
-    # (b) the selection is an arbitrary sequence of `picks` region positions (duplicates and any order allowed)
-    pk = [z3.BitVec(f'pick{i}', 64) for i in range(picks)]
-    pre_b = [z3.And(p >= 0, p < n) for p in pk]
-    pre.extend(pre_b)
-    want_b = [z3.Or(*[p == j for p in pk]) for j in range(n)]
-
-    def conc_b(m):
-        return [names[m.eval(p, model_completion=True).as_signed_long()] for p in pk]
-
-    concretise = conc_b
-    obligations(f'N={n}, sequence of {picks} picks', RG.SymList([(z3.BoolVal(True), p) for p in pk]), want_b)
+        if pk is None:
+            # translator validation: solver-chosen models pushed through the real functions
+            U = _utils()
+            for extra in ([P.sel[0], z3.Not(P.sel[1])], [z3.Not(P.sel[0]), P.sel[n - 1], P.small[n - 1] == 63],
+                          [z3.And(*P.sel)], [z3.Not(z3.Or(*P.sel))], [P.small[0] == 63, P.sel[0]],
+                          [P.small[0] == 1, P.sel[0], P.sel[2]]):
+                s = z3.Solver()
+                s.add(*P.pre)
+                s.add(*extra)
+                if str(s.check()) != 'sat':
+                    raise HarnessError('translator validation: no model')
+                m = s.model()
+                ci, sel = P.concretise(m)
+                mapping = dict(zip(P.names, ci))
+                real_bits = U.regions_to_bits_rep(sel, mapping)
+                real_back = U.regions_bits_rep_to_regions(real_bits, mapping)
+                model_bits = m.eval(P.bits, model_completion=True).as_long()
+                model_back = [nm for nm in P.names if z3.is_true(m.eval(P.got[nm], model_completion=True))]
+                if real_bits != model_bits or real_back != model_back:
+                    raise HarnessError(f'translator validation failed: real bits={real_bits} back={real_back}; '
+                                       f'model bits={model_bits} back={model_back}')
+                R.validation_points += 1
     R.sample({'regions': n, 'picks': picks})
 
 
